@@ -317,6 +317,8 @@ def run(ck, tier):
     run_site_obligations(ck, F)
     run_alloc(ck, F)
     run_variant(ck, F)
+    from . import c09, core
+    c09.run_inputs(core.Renamed(ck, "C09.", "C08."), F)      # the full validation every safe IPC / Flight decode relies on
     api.must_be_unsafe(ck, F, "C08.skip-validation-is-unsafe", ["arrow_ipc", "arrow_flight", "arrow_data"], re.compile(r"skip_validation|^set$"),
                        [(r"with_skip_validation$", "takes an UnsafeFlag, which can only be set inside `unsafe`", lambda fn: any("UnsafeFlag" in t for t in fn.get("inputs", []))),
                         (r"::set$", "not UnsafeFlag::set", lambda fn: "UnsafeFlag" not in fn["id"])], floor=5)
